@@ -17,7 +17,7 @@ ChildOf(d, j, i) == IsElem(d, j) /\ IsOpen(d, i) /\ i < j /\ j < MatchEnd(d, i) 
 Named(d, n) == {i \in 1..Len(d) : IsElem(d, i) /\ d[i].n = n}
 
 WellFormed(d) ==
-  /\ \A i \in 1..Len(d) : d[i].k \in {"text", "stag", "etag", "sc"}
+  /\ \A i \in 1..Len(d) : d[i].k \in {"text", "textlt", "stag", "etag", "sc"}
   /\ \A j \in 1..(Len(d) + 1) : Depth(d, j) >= 0
   /\ Depth(d, Len(d) + 1) = 0
   /\ \A i \in 1..Len(d) : IsOpen(d, i) => d[MatchEnd(d, i)].n = d[i].n
